@@ -29,7 +29,7 @@ func init() {
 	}
 	Registry["C15"] = &Check{
 		Scenarios: c15Scenarios,
-		Rule: "Server.Serve with three connections plus a fourth offered after the fault; accept script: every placement of <=2 temporary accept errors among the offers; connection A (whose first handler has requested CloseNotify when the fault is at position 2 or 3, so the notifier goroutine is running) suffers one fault from {handler panic, undecodable header with trailing bytes, disconnect in the middle of a message} at every position 1..3 of its three-message sequence; connections B, C and D exchange two request/answer pairs each with bodies that name their connection (the handler checks that the body belongs to the header); C and D are offered only after A's fault, and C's first message is held inside its body until D has been served completely (so a read buffer shared across connections is overwritten); every ordering of environment steps, timers and blocking hand-overs at preemption bound 0 (quick: each accept placement with three of the nine fault/position pairs; thorough: the full product, and preemption bound 1 for the placement without accept errors); back-off sleeps run on the virtual clock.",
+		Rule: "Server.Serve with three connections plus a fourth offered after the fault; accept script: every placement of <=2 temporary accept errors among the offers; connection A (whose first handler has requested CloseNotify when the fault is at position 3, so the notifier goroutine is running) suffers one fault from {handler panic, undecodable header with trailing bytes, disconnect in the middle of a message} at every position 1..3 of its three-message sequence; connections B, C and D exchange two request/answer pairs each with bodies that name their connection (the handler checks that the body belongs to the header); C and D are offered only after A's fault, and C's first message is held inside its body until D has been served completely (so a read buffer shared across connections is overwritten); every ordering of environment steps, timers and blocking hand-overs at preemption bound 0 (quick: each accept placement with three of the nine fault/position pairs; thorough: the full product, and preemption bound 1 for the placement without accept errors); back-off sleeps run on the virtual clock.",
 		Assume: []string{"data-race freedom between visible operations (audited separately with -race)"},
 		QuickBudget: 150, ThoroughBudget: 2400,
 	}
@@ -368,7 +368,7 @@ func c15Scenarios(tier string) []*Scenario {
 				if fault == "panic" {
 					o.panicAt["A"] = pos
 				}
-				if pos >= 2 {
+				if pos == 3 {
 					o.notifyOn = "A" // CloseNotify is active on the connection when the fault happens
 				}
 				o.fault = func(name string, c *vnet.Conn, ci int) bool {
